@@ -4,6 +4,8 @@ import (
 	"fmt"
 	"go/types"
 	"math"
+	"regexp"
+	"strconv"
 	"strings"
 
 	"golang.org/x/tools/go/ssa"
@@ -319,6 +321,33 @@ func registerStd(e *Engine, simple func(string, func(*Run, []Value) Value)) {
 		}
 		r.store(m.v.(PtrV), r.pbMsgs[int(h&0xffffffff)-1])
 		return IfaceV{}
+	})
+
+	// regexp on concrete arguments is evaluated natively
+	mkRegexp := func(r *Run, a []Value) PtrV {
+		expr := r.mustStr(a[0])
+		if _, err := regexp.Compile(expr); err != nil {
+			panic(goPanic{kind: "explicit", msg: "regexp: Compile: " + err.Error()})
+		}
+		rt := r.eng.pkgs["regexp"].Type("Regexp").Type()
+		v := r.zero(rt).(*StructV)
+		v.f[r.fieldByName(rt, "expr")] = &StrV{s: expr}
+		return PtrV{obj: r.newObject(rt, v)}
+	}
+	simple("regexp.MustCompile", func(r *Run, a []Value) Value { return mkRegexp(r, a) })
+	simple("regexp.Compile", func(r *Run, a []Value) Value { return TupleV{mkRegexp(r, a), IfaceV{}} })
+	simple("(*regexp.Regexp).MatchString", func(r *Run, a []Value) Value {
+		rt := r.eng.pkgs["regexp"].Type("Regexp").Type()
+		expr := r.mustStr(r.load(a[0].(PtrV).child(r.fieldByName(rt, "expr"))))
+		return r.ctx.Bool(regexp.MustCompile(expr).MatchString(r.mustStr(a[1])))
+	})
+	simple("strconv.Atoi", func(r *Run, a []Value) Value {
+		v, err := strconv.Atoi(r.mustStr(a[0]))
+		if err != nil {
+			en := r.eng.pkgs["errors"].Func("New")
+			return TupleV{r.intTerm(0), r.callSync(r.cur, &FuncV{fn: en}, []Value{&StrV{s: err.Error()}})}
+		}
+		return TupleV{r.intTerm(int64(v)), IfaceV{}}
 	})
 
 	// time
